@@ -1,7 +1,7 @@
 """C15 - session automaton life-cycle."""
 from props.base import *
 NEEDS_VIEW = True     # reads the public fields of the automata objects
-COQ_TARGETS = ['props/Properties_C15.vo']
+COQ_TARGETS = ['props/Properties_C15.vo', 'props/Properties_C15h.vo']
 EXPECT_KEYS = {'sess'}
 RULE = ('exhaustive single steps: 4 states x session events 0..7 x elapsed {0, t-1, t, t+1, 10t} s with t = 1 (one scenario per cell, '
         'state and time stamp installed with set_sess), plus random event/advance sequences; a case is counted once per distinct '
